@@ -64,6 +64,13 @@ def tie_package(rng, gated: set) -> dict:
         "class ImplOne(origin_one.Base):\n    pass\n\n\nclass ImplTwo(pk.origin_two.Base):\n    pass\n\n\n"
         "def convert(a: origin_one.Base, b: 'pk.origin_two.Base', c: origin_three.Base = origin_three.DEFAULT) -> origin_three.Base: ...\n"
     )
+    # (c) docstring types in "or" notation with many and with repeated alternatives (parsed under the NumPy style)
+    files["src/pk/doc_unions.py"] = (
+        'def many(value, other=None):\n    """Many.\n\n    Parameters\n    ----------\n    value : int or str or float or bool or int\n        Repeats one alternative.\n'
+        '    other : str or None or bytes or str or list[int] or dict[str, int]\n        Repeats another.\n\n    Returns\n    -------\n    result : bool or int or bool or str\n        R.\n    """\n\n\n'
+        'class Documented:\n    """Doc.\n\n    Attributes\n    ----------\n    mode : str or int or str or None\n        M.\n    """\n\n    mode = 1\n\n'
+        '    def __init__(self, size):\n        """Init.\n\n        Parameters\n        ----------\n        size : float or int or float or str\n            S.\n        """\n        self.size = size\n'
+    )
     # (d) type variables with equal names, several in one signature
     files["src/pk/tv1.py"] = 'from typing import TypeVar\n\nT = TypeVar("T")\nU = TypeVar("U")\nV = TypeVar("V", bound=int)\n\n\ndef pick(a: T, b: U, c: V, d: list[U]) -> T: ...\n'
     files["src/pk/tv2.py"] = 'from typing import TypeVar\n\nT = TypeVar("T", bound=str)\nU = TypeVar("U")\n\n\ndef pick2(a: U, b: T) -> T: ...\n'
